@@ -52,10 +52,10 @@ CLAIMED = {
     ),
     "C04": (
         "proof",
-        "Coq proofs (escapeHtml safety for every string by induction; chunk discipline of the renderer model for every html-free token list) + differential correspondence of the renderer + strict HTML grammar checker on implementation output",
-        "Theorems: for EVERY string escapeHtml yields no < > double-quote and only its own four entities, and the four replace passes of the source compute exactly that function (C04_escape_safe, C04_escape_as_written); for EVERY token list without html_block/html_inline tokens and without highlight, the renderer emits only fixed renderer literals, '<tag'/'</tag' of token tags, and escaped data - no raw chunk (C04_only_renderer_markup, C04_attrs_escaped). Parser side, block half PROVED for every source and configuration: the tag of every token the block parser appends is one of 19 fixed names or empty, html_block tokens exist only when options.html is on (C04_block_tags_from_vocabulary), and the block stream is balanced (C02_block_stream_balanced). Inline half (html_inline only with options.html, inline tags, balanced inline pairs) is not yet a theorem: the parser side is also decided on the implementation each run by a strict HTML checker (nesting, tag/attribute vocabulary, escaping in text and attribute values) over html-off configurations (all three option routes, html rules force-enabled) with metacharacters placed in every data slot.",
-        "Trusted: Coq kernel; renderer model tied by sampled correspondence; parser-side half by exploration only (partial).",
-        "DESIGN.md §3 C04",
+        "End-to-end Coq theorem on the whole-pipeline model (block parser, inline parser, core chain, renderer): html off => no raw chunk in the output of render / renderInline, for every source and configuration; escapeHtml safety by induction; whole-pipeline + renderer differential correspondence under html-off configurations; strict HTML grammar checker on implementation output",
+        "Theorems: with options.html off and no highlight callback, for EVERY source, env, rule configuration (any core chain, any block / inline rule subsets, any maxNesting) and any value of the opaque dependencies, the string returned by render / renderInline is a concatenation of chunks each of which is a fixed renderer literal, '<tag' / '</tag' for one of 26 fixed tag names, or escapeHtml of data - never a raw chunk (C04_render_safe, C04_render_inline_safe; hypotheses shown satisfiable by a concrete configuration and document). Its parts: every token parse() returns and every child of an inline token has a vocabulary tag and is neither html_block nor html_inline (C04_parse_tokens_from_vocabulary: all 11 block rules, all 12 inline rules incl. link-label / image recursion and skipToken, the 4 in-place post-processing rules, replacements / smartquotes / text_join); html_inline tokens need options.html (C04_inline_tokens_from_vocabulary), html_block likewise (C04_block_tags_from_vocabulary); the renderer emits only literals + escaped data on such streams (C04_only_renderer_markup, C04_attrs_escaped); escapeHtml yields no < > double-quote for EVERY string and equals the four replace passes of the source (C04_escape_safe, C04_escape_as_written). Each run: whole-pipeline model vs implementation (HTML, env, exceptions) and renderer model vs implementation under html-off configurations incl. html switched off by item / attribute assignment and html rules force-enabled; implementation output checked by a strict HTML grammar (nesting, tag / attribute vocabulary, escaping) with metacharacters placed in every data slot.",
+        "Trusted: Coq kernel; the pipeline model is tied to the code by sampled correspondence only; well-nestedness of inline pairs in the HTML is checked on the implementation (the theorem speaks about chunks, the block stream balance is C02's theorem).",
+        "DESIGN.md §3 C04, §8.2",
     ),
     "C17": (
         "proof",
